@@ -1234,7 +1234,10 @@ class SuccessionDiagram:
         Expand the succession diagram and search for attractors using default methods.
         """
         self.expand_block()
-        for node_id in self.node_ids():
+        # Only expanded nodes are searched: block expansion can leave stub
+        # nodes behind, and every attractor inside a stub is also found
+        # in one of the expanded nodes.
+        for node_id in self.expanded_ids():
             self.node_attractor_seeds(node_id, compute=True)
 
     def expand_scc(self, find_motif_avoidant_attractors: bool = True) -> bool:
